@@ -53,7 +53,7 @@ CHECKS = {
               "register/port indices (including out-of-range ones) and every value of a numeric operand of each enumerated bit length "
               "are solver variables. Obligations: accepted => every operand fits; accepted => word length == Max_word and binary; the "
               "opcode field decodes to the opcode; the disassembly names the same operands; re-assembling the disassembly gives the same "
-              "word; no panic. Holds for all values within the stated architecture family; architectures outside the family, modes vn/hy, "
+              "word; no panic; and the field helpers get_id/zeros_prefix are correct for all bit strings of lengths up to 62. Holds for all values within the stated architecture family; architectures outside the family, modes vn/hy, "
               "shared-object and floating-point operands are outside the claim."),
         note=("Trusted: z3, go/ssa, /verif/symgo; stub: Process_number(decimal v) = minimal binary of v and strconv.Itoa round-trips "
               "through it (validated natively on 435 values at every run). Two genuine defects found by this check were repaired in /repo "
@@ -68,7 +68,7 @@ CHECKS = {
               "every consumer: the producer never passes an r2owa the consumer has not captured (no loss), a consumer never captures one "
               "offer twice (no duplicate), captured values equal the sent ones in order. In strict mode the check reproduces the two "
               "recorded defects (replayed natively with real goroutines); with exactly those two situations assumed away z3 shows the "
-              "property for all programs within the bounds; the producer-side situation is pinned to its cause (an r2owa starting on the tick after the "
+              "property for all programs within the bounds (fan-out: one producer to k consumers; fan-in: two producers into the two inputs of one consumer); the producer-side situation is pinned to its cause (an r2owa starting on the tick after the "
               "previous one retired) so that a received flag stuck high for another reason is still reported. Configurations with delays give "
               "every opcode a single-delay distribution whose delay is a solver variable (SimDelayMap). HARDWARE side: the processor, ROM and "
               "top-level Verilog the real generators write for the same machines is unrolled by /verif/vlog for T cycles with symbolic ROM "
@@ -147,11 +147,11 @@ CHECKS = {
         category="proof",
         text=("Bounded inductive step decided by SMT: for every endpoint shape built by real Add_* calls within the history-length bound "
               "and EVERY well-formed link table on it (solver variables), one edit (Del_input, Del_output, Add_input, Add_output, "
-              "Add_processor, Del_bond, Add_bond) with a symbolic argument keeps well-formedness and every untouched bond, and an "
+              "Add_processor, Del_bond, Add_bond, Attach_benchmark_core) with a symbolic argument keeps well-formedness and every untouched bond, and an "
               "out-of-range argument is an error that changes nothing. Because the pre-state is arbitrary, histories of any length over "
               "the covered shapes are covered; larger shapes are outside the claim. The quick tier samples the (shape, edit) configurations, "
               "stratified by edit kind; the thorough tier takes a larger stratified sample. Not an unbounded proof."),
-        note="Trusted: z3 4.8.12, go/ssa, the /verif symbolic executor; ids assumed >= 0; Attach_benchmark_core is not covered.",
+        note="Trusted: z3 4.8.12, go/ssa, the /verif symbolic executor; ids assumed >= 0; Attach_benchmark_core is one of the edits (AttachBenchmarkCoreV2 is not).",
         design="DESIGN.md section 3, C10"),
     "C11": dict(
         category="proof",
